@@ -412,6 +412,29 @@ class Gen:
         _, e = self.any_expr()
         return [("s", f"mon.write({e})")]
 
+    def s_mlist(self, depth, loop_depth, in_main):
+        """run-time mutation of the int list m0: append (small alphabet -> duplicates; own elements), remove of a present value
+        (by element, so Python never raises), order-sensitive reads and full dumps; every index is guarded by len()."""
+        if "m0" not in self.vars or self.in_func:
+            return self.s_write(depth, loop_depth, in_main)
+        self.feat("list_mutation")
+        k = self.choice(["append", "append", "append_own", "remove", "remove", "read", "dump", "len"])
+        if k == "append":
+            v = self.int_lit(1, 3) if self.chance(0.7) else self.e_int(1)
+            return [("s", f"m0.append({v})")]
+        i = self.d(st.integers(-3, 2))
+        need = i if i >= 0 else -i - 1
+        if k == "append_own":
+            return [("b", f"if len(m0) > {need}:", [("s", f"m0.append(m0[{i}])")])]
+        if k == "remove":
+            return [("b", f"if len(m0) > {max(need, 1)}:", [("s", f"m0.remove(m0[{i}])")])]
+        if k == "read":
+            return [("b", f"if len(m0) > {need}:", [("s", f"mon.write(m0[{i}])")])]
+        if k == "len":
+            return [("s", "mon.write(len(m0))")]
+        v = f"q{len(self.loop_vars)}"
+        return [("b", f"for {v} in range(len(m0)):", [("s", f"mon.write(m0[{v}])")])]
+
     def s_sleep(self, depth, loop_depth, in_main):
         self.feat("sleep")
         e = self.choice([self.int_lit(0, 30), self.macro(lambda: f"(abs({self.e_int(1)}) % 20)"), self.choice(["2.5", "0.5", "10.75", "0"])])
@@ -609,8 +632,22 @@ class Gen:
         name = f"h{idx}"
         ptypes = [self.choice(["int", "int", "float", "str", "bool"]) for _ in range(self.d(st.integers(0, 3)))]
         ret = self.choice(["int", "int", "float", "str", "bool", None])
-        saved_vars, saved_const = dict(self.vars), set(self.readonly)
+        saved_vars, saved_const, saved_cset = dict(self.vars), set(self.readonly), set(self.const)
         params = [f"p{idx}{chr(97 + i)}" for i in range(len(ptypes))]
+        # a parameter / local may carry the name of a top-level variable: inside the helper it is the helper's own name
+        plain = sorted(n for n, ty in saved_vars.items() if ty in ("int", "float", "str", "bool") and n[0] in "ifsbc")
+        shadowed = set()
+
+        def shadow_name(default):
+            free = [n for n in plain if n not in shadowed]
+            if free and self.chance(0.25):
+                n = self.choice(free)
+                shadowed.add(n)
+                self.feat("shadowed_global")
+                return n
+            return default
+
+        params = [shadow_name(p) for p in params]
         for p, t in zip(params, ptypes):
             self.vars[p] = t
         # globals are readable but never written inside helpers (keeps `global` out of the picture)
@@ -618,12 +655,18 @@ class Gen:
         self.in_func = name
         body = []
         locs = []
-        for i in range(self.d(st.integers(0, 2))):
+        nloc = self.d(st.integers(0, 2))
+        lnames = [shadow_name(f"q{idx}{chr(97 + i)}") for i in range(nloc)]
+        for ln in lnames:
+            self.vars.pop(ln, None)  # a Python local cannot be read before its first assignment in the helper
+        for i in range(nloc):
             t = self.choice(["int", "float", "str"])
-            ln = f"q{idx}{chr(97 + i)}"
+            ln = lnames[i]
             body.append(("s", f"{ln} = {self.expr(t, 2)}"))
             self.vars[ln] = t
             locs.append(ln)
+        self.readonly -= shadowed
+        self.const -= shadowed
         for _ in range(self.d(st.integers(0, 3))):
             body.extend(self.stmt(1, 0, False))
         if ret is not None:
@@ -637,7 +680,7 @@ class Gen:
         if not body:
             body = [("s", f"mon.write({self.int_lit()})")]
         self.in_func = None
-        self.vars, self.readonly = saved_vars, saved_const
+        self.vars, self.readonly, self.const = saved_vars, saved_const, saved_cset
         self.helpers.append((name, ptypes, ret))
         self.feat("helper_def")
         ann = {"int": "int", "float": "float", "str": "str", "bool": "bool"}
@@ -694,6 +737,11 @@ class Gen:
             self.list_len[name] = ln
             self.const.add(name)
             self.feat("list_literal")
+        if self.chance(0.45):
+            ln = self.d(st.integers(1, 4))
+            nodes.append(("s", f"m0 = [{', '.join(self.int_lit(1, 3) for _ in range(ln))}]"))
+            self.vars["m0"] = "list_int_mut"
+            self.extra_weights["mlist"] = 5
         if self.chance(0.3):
             self.feat("list_comp")
             a = self.d(st.integers(0, 3)); b = self.d(st.integers(a + 1, a + 4))
@@ -705,7 +753,7 @@ class Gen:
             nodes = [("s", ln) for ln in DEVICE_HEADER.strip().split("\n")] + nodes
             dev_nodes = self.declare_devices()
             nodes.extend(dev_nodes)
-            self.extra_weights = {"device": 6}
+            self.extra_weights["device"] = 6
         if "btn" in self.devs and self.chance(0.5) and False:
             pass
         for i in range(self.d(st.integers(0, self.p.helpers))):
@@ -749,7 +797,7 @@ def count_nodes(nodes):
 
 import re as _re
 
-_DECL = _re.compile(r"^(from |mon = |led = |[iwfsbcl]\d = )")
+_DECL = _re.compile(r"^(from |mon = |led = |[iwfsbclm]\d = )")
 
 
 def is_decl(node):
